@@ -170,7 +170,14 @@ func cmdCheck(args []string) {
 	for _, k := range keys {
 		if matchPatterns(k, cfg.Sweep) && !matchPatterns(k, cfg.SweepSkip) && !seen[k] {
 			seen[k] = true
-			jobs = append(jobs, job{k, "sweep"})
+			mode := "sweep"
+			if ct := P.contractFor(P.funcs[k]); ct != nil && (len(ct.Loops) > 0 || !ct.onlyLoops()) {
+				// a swept function that has a contract: its invariant / precondition obligations gate its safety
+				// obligations (conditional rule), so they are tracked (claimed, retried); its postconditions belong to
+				// the property the contract was written for and are not counted here
+				mode = "sweep+inv"
+			}
+			jobs = append(jobs, job{k, mode})
 		}
 	}
 
@@ -322,6 +329,9 @@ func cmdCheck(args []string) {
 		}
 		for _, o := range r.vc.obligs {
 			if r.mode == "sweep" && !isSafetyKind(o.Kind) {
+				continue
+			}
+			if r.mode == "sweep+inv" && o.Kind == "post" {
 				continue
 			}
 			all = append(all, obRec{key: obKey(o), o: o, fn: r.key, mode: r.mode, vc: r.vc})
@@ -632,6 +642,9 @@ func cmdCheck(args []string) {
 		n, d := 0, 0
 		for _, o := range r.vc.obligs {
 			if r.mode == "sweep" && !isSafetyKind(o.Kind) {
+				continue
+			}
+			if r.mode == "sweep+inv" && o.Kind == "post" {
 				continue
 			}
 			n++
